@@ -75,6 +75,13 @@ def c_rgb(t):
     return "(%d,%d,%d)" % t
 
 
+def dt_object(kind, arg):
+    if kind == "dtz":
+        from zoneinfo import ZoneInfo
+        return datetime(*arg[:7], tzinfo=ZoneInfo(arg[7]), fold=arg[8])
+    return mk_dt(arg)
+
+
 def run_case(M, kind, arg):
     """returns the Coq term of the case (input + implementation outputs)"""
     D = M["datatype"]
@@ -112,6 +119,14 @@ def run_case(M, kind, arg):
         enc = call(D.DateTime.encode, mk_dt(arg))
         dec = abs_dt(call(D.DateTime.decode, enc))
         return "CDt %s %s %s" % (c_dt(arg), cstr(enc), copt(dec, c_dt))
+    if kind == "dtz":
+        from zoneinfo import ZoneInfo
+        y, mo, d, h, mi, sec, us, zone, fold = arg
+        v = datetime(y, mo, d, h, mi, sec, us, tzinfo=ZoneInfo(zone), fold=fold)
+        rec = (y, mo, d, h, mi, sec, us, v.utcoffset() // US)
+        enc = call(D.DateTime.encode, v)
+        dec = abs_dt(call(D.DateTime.decode, enc))
+        return "CDt %s %s %s" % (c_dt(rec), cstr(enc), copt(dec, c_dt))
     if kind == "dtdec":
         which, t = arg
         dec = abs_dt(call((D.DateTime if which == "DateTime" else D.Date).decode, t))
@@ -259,6 +274,8 @@ def klass(kind, arg):
         return "hex2rgb/" + ("non-ascii" if any(ord(c) > 127 for c in arg) else "valid" if RE_COL.fullmatch(arg) else "malformed")
     if kind == "dtdec":
         return "%s.decode/%s" % (arg[0], "valid" if RE_DT.fullmatch(arg[1]) or RE_DATE.fullmatch(arg[1]) else "outside-xsd")
+    if kind == "dtz":
+        return "dt/zone-fold"
     if kind == "dt":
         off = arg[7]
         if off is not None and 0 < abs(off) < 10 ** 6:
@@ -446,8 +463,22 @@ def gen_inputs(tier, rng, css):
     for _ in range(30 if q else 1500):
         add("hexa", tuple(rng.choice([0, 255, 128, -1, 256, rng.randint(0, 255)]) for _ in range(rng.choice([3, 3, 3, 2, 4]))))
     for name, _v in (css[:20] if q else css): add("hexa", rng.choice(["", " ", "\t"]) + name + rng.choice(["", " ", "\n"]))
-    # offsets were drawn in seconds: the cases carry microseconds; add offsets with a sub-second part (datetime allows them)
     inp = [(k, a[:7] + (None if a[7] is None else a[7] * 10 ** 6,)) if k in ("dt", "dateofdt") else (k, a) for k, a in inp]
+    # the same instant written in several zones, one after the other in this process, and the two readings of a repeated hour (fold):
+    # such datetimes compare and hash equal, so anything remembered per "equal" argument (a cache, a dict) shows here;
+    # every string is compared with the model's, case by case, in this order
+    for (y, mo, d, h, mi) in [(2024, 3, 10, 22, 30), (2024, 12, 31, 23, 59), (1, 1, 2, 0, 0), (9999, 12, 30, 12, 0)] + \
+            [(rng.randint(2, 9998), rng.randint(1, 12), rng.randint(2, 27), rng.randint(0, 23), rng.randint(0, 59)) for _ in range(6 if q else 300)]:
+        base = datetime(y, mo, d, h, mi, tzinfo=timezone.utc)
+        for off in [0, 3600, 19800, -39600, 50400, -50400, 60, -1, 86340]:
+            loc = base.astimezone(timezone(timedelta(seconds=off)))
+            add("dt", (loc.year, loc.month, loc.day, loc.hour, loc.minute, loc.second, 0, off * 10 ** 6))
+        add("dt", (y, mo, d, h, mi, 0, 0, None))                 # and the naive one with the same fields
+    for zone, (y, mo, d) in [("Europe/Paris", (2024, 10, 27)), ("America/New_York", (2024, 11, 3)), ("Australia/Lord_Howe", (2024, 4, 7)), ("Europe/Paris", (2023, 10, 29))]:
+        for hm in [(1, 30), (2, 0), (2, 30), (1, 45)]:
+            for fold in (0, 1, 0):
+                add("dtz", (y, mo, d, hm[0], hm[1], 0, 0, zone, fold))
+    # offsets were drawn in seconds: the cases carry microseconds; add offsets with a sub-second part (datetime allows them)
     for off in [1, -1, 500000, 19800 * 10 ** 6 + 1, -(86399 * 10 ** 6 + 999999), 86399 * 10 ** 6 + 999999, 60 * 10 ** 6 + 7, -3600 * 10 ** 6 - 250000]:
         add("dt", (2024, 1, 31, 10, 0, 0, 0, off)); add("dt", (1, 1, 1, 0, 0, 0, 999999, off))
     for _ in range(20 if q else 2000):
@@ -513,13 +544,30 @@ def run(tier, seed, replay=None):
         css = []; gen_errors.append("Gen_Css: %s" % e)
     proofs = common.build_proofs(PROP, extra_targets=("CodecChk", "Gen_Css"))
     corpus = [tuple(json.load(open(f))["case"]) for f in sorted((common.ROOT / "corpus" / PROP).glob("*.json"))]
+    prelude = []
     if replay:
-        inputs = [tuple(json.load(open(replay))["case"])]
+        rpj = json.load(open(replay))
+        inputs = [tuple(rpj["case"])]
+        prelude = [(k, tuple(a) if isinstance(a, list) else a) for k, a in rpj.get("prelude", [])]
     else:
         inputs = corpus + gen_inputs(tier, rng, css)
     inputs = [(k, tuple(a) if isinstance(a, list) else a) for k, a in inputs]
     cases, kept, skipped, hist = [], [], {}, {}
+    for kind, arg in prelude:                       # earlier calls of the same process that the stored case depends on
+        try: run_case(M, kind, arg)
+        except Skip: pass
+    seen_equal = {}                                 # aware datetimes already encoded in this process, by hash: equal ones may share state
+    earlier = {}
     for kind, arg in inputs:
+        if kind in ("dt", "dtz"):
+            try:
+                o = dt_object(kind, arg)
+                if o.tzinfo is not None:
+                    prev = [x for x, ob in seen_equal.get(hash(o), []) if ob == o]
+                    if prev: earlier[(kind, arg)] = prev[-8:]
+                    seen_equal.setdefault(hash(o), []).append(((kind, arg), o))
+            except Exception:
+                pass
         try:
             cases.append(run_case(M, kind, arg)); kept.append((kind, arg))
         except Skip as e:
@@ -542,6 +590,7 @@ def run(tier, seed, replay=None):
             continue
         reported.add((key, hard[i])); per_group[group] = per_group.get(group, 0) + 1
         rp = common.write_replay(PROP, seed, "%d" % i, dict(layer=LAYER[hard[i]], code=hard[i], input_class=key, case=[kind, arg],
+                                                            prelude=[list(x) for x in earlier.get((kind, arg), [])],
                                                             coq_case=cases[i], known_finding_key=None))
         violations.append((rp, False))
     hard_found = bool(violations)
